@@ -458,6 +458,18 @@ func fixLength(isResponse bool, status int, requestMethod string, header Header,
 	}
 
 	// Logic based on Content-Length
+	if contentLens := header["Content-Length"]; len(contentLens) > 1 {
+		// RFC 7230 3.3.2: repeated Content-Length fields are acceptable only
+		// if all values are identical; otherwise the framing is ambiguous.
+		first := textproto.TrimString(contentLens[0])
+		for _, ct := range contentLens[1:] {
+			if first != textproto.TrimString(ct) {
+				return -1, &badStringError{"conflicting Content-Length", ct}
+			}
+		}
+		// deduplicate Content-Length
+		header["Content-Length"] = []string{first}
+	}
 	cl := strings.TrimSpace(header.GetDirect("Content-Length"))
 	if cl != "" {
 		n, err := parseContentLength(cl)
@@ -693,10 +705,11 @@ func parseContentLength(cl string) (int64, error) {
 	if cl == "" {
 		return -1, nil
 	}
-	n, err := strconv.ParseInt(cl, 10, 64)
-	if err != nil || n < 0 {
+	// Content-Length = 1*DIGIT: no sign is allowed (ParseInt would accept "+5" and "-0").
+	n, err := strconv.ParseUint(cl, 10, 63)
+	if err != nil {
 		return 0, &badStringError{"bad Content-Length", cl}
 	}
-	return n, nil
+	return int64(n), nil
 
 }
